@@ -110,3 +110,27 @@ package parse
 //@   at call (*parse.parser).parsePatchVersion#1 set sideImports1 = result0.Imports
 //@   at call (*parse.parser).parsePatchVersion#1 set sidePackage1 = result0.Package
 //@   ensures [C10] the-guards-of-a-side-stay-as-written: err == nil ==> patch.Minus.Imports == sideImports0 && patch.Minus.Package == sidePackage0 && patch.Plus.Imports == sideImports1 && patch.Plus.Package == sidePackage1
+
+// A change is its name (a label), its description, its metavariable section and its patch, each as written;
+// it is rejected only because its metavariable section or its patch is (C13, C19).
+//@ func (p *parser) parseChange(i, c) (change, err)
+//@   requires p.fset != nil && c != nil
+//@   requires typing: forall k int {c.Meta[k]} :: 0 <= k && k < len(c.Meta) ==> c.Meta[k] != nil
+//@   requires typing: forall k int {c.Patch[k]} :: 0 <= k && k < len(c.Patch) ==> c.Patch[k] != nil
+//@   requires typing: forall k int, l int {c.Patch[k], c.Patch[l]} :: 0 <= k && k < l && l < len(c.Patch) ==> c.Patch[k] != c.Patch[l]
+//@   at call (*parse.parser).parseMeta assert [C13] the-section-of-this-change: arg1 == i && arg2 == c
+//@   at call (*parse.parser).parsePatch assert [C13] the-patch-of-this-change: arg1 == i && arg2 == c
+//@   ensures [C13] rejected-only-because-a-part-is: err != nil ==> ret("(*parse.parser).parseMeta", 0, 1) != nil || ret("(*parse.parser).parsePatch", 0, 1) != nil
+//@   ensures [C13] name-and-description-are-carried-along-unread: err == nil ==> change != nil && change.Name == c.Name && change.Comments == c.Comments && change.Meta == ret("(*parse.parser).parseMeta", 0, 0) && change.Patch == ret("(*parse.parser).parsePatch", 0, 0)
+
+// A program is the list of its changes, in order; it is rejected only because splitting it or one of its
+// changes fails - names, descriptions and blank lines never decide (C09, C13).
+//@ func (p *parser) parseProgram(filename, contents) (prog, err)
+//@   requires p.fset != nil
+//@   at call (*parse.parser).parseChange set changeFailures = changeFailures + ite(result1 != nil, 1, 0)
+//@   at call (*parse.parser).parseChange assert [C09,C13] every-change-in-order: arg1 == i && arg2 == c
+//@   ensures [C13] rejected-only-because-splitting-or-a-change-failed: err != nil ==> ret("parse/section.Split", 0, 1) != nil || changeFailures > old(changeFailures)
+//@   ensures [C09] one-change-per-section-in-order: err == nil ==> prog != nil && len(prog.Changes) == len(ret("parse/section.Split", 0, 0))
+//@   loop 0
+//@     invariant changeFailures == old(changeFailures)
+//@     invariant fresh(prog.Changes.arr) && len(prog.Changes) == len(changes)
